@@ -62,9 +62,11 @@ FAMILIES = {
     'builder': {
         'src': 'src/runtime/builder.c',
         'structs': {},
-        # flatcc_builder_t is large and full of pointers; only the two members the pad helpers read are modelled
-        'struct_fields': {'flatcc_builder': ('c_builder', 'B_', ['emit_start', 'emit_end'])},
-        'functions': ['alignup_uoffset', 'alignup_size', 'front_pad', 'back_pad'],
+        # flatcc_builder_t is large and full of pointers; only the members the translated code reads are modelled
+        'struct_fields': {'flatcc_builder': ('c_builder', 'B_', ['emit_start', 'emit_end']),
+                          'flatcc_iov_state': ('c_iov', 'iov_', ['len', 'count'])},
+        'functions': ['alignup_uoffset', 'front_pad', 'back_pad'],
+        'guards': ['emit_front', 'emit_back'],
         'enum_prefix': None,
         'imports': [],
     },
@@ -143,10 +145,14 @@ def coq_ident(name):
 class Func:
     """translation of one FunctionDecl"""
 
-    def __init__(self, tr, decl):
+    def __init__(self, tr, decl, guard=False):
+        """guard=True: translate only the straight-line prefix of the body up to its FIRST if statement and return
+        that statement's condition as a bool (used for the range tests at the head of functions whose remainder is
+        outside the subset); the Gallina name is c_<fn>_guard"""
         self.tr, self.decl, self.name = tr, decl, decl['name']
         self.used = set()
         self.tmp = 0
+        self.guard = guard
 
     def err(self, node, msg):
         loc = node.get('range', {}).get('begin', {}) if isinstance(node, dict) else {}
@@ -189,7 +195,16 @@ class Func:
         self.ret_ty = self.tr.ast.resolve_typedefs(rq)
         if self.ret_ty[0] != 'int': self.err(d, 'return type %s not an integer type' % rq)
         body = [c for c in d['inner'] if c.get('kind') == 'CompoundStmt'][0]
+        if self.guard:
+            pre = []
+            for st in body.get('inner', []):
+                pre.append(st)
+                if st.get('kind') == 'IfStmt': break
+            else:
+                self.err(d, 'guard translation: the body has no top-level if statement')
+            body = {'kind': 'CompoundStmt', 'inner': pre}
         self.effect = self.scan_effects(body)
+        if self.guard and self.effect: self.err(d, 'guard translation of a prefix that reads memory')
         env, params, self.outs = {}, [], []
         for p in d['inner']:
             if p.get('kind') != 'ParmVarDecl': continue
@@ -214,10 +229,15 @@ class Func:
         text = self.stmts(list(body.get('inner', [])), env, 1)
         rty = 'Z' if not self.outs else '(' + ' * '.join(['Z'] * (1 + len(self.outs))) + ')'
         if self.effect: rty = 'option ' + rty
+        if self.guard:
+            if self.outs: self.err(d, 'guard translation of a function with out-parameters')
+            rty = 'bool'
         self.rty = rty
         sig = ' '.join('(%s : %s)' % (n, t) for n, t, _ in params)
-        cm = '(* %s %s(%s) *)' % (rq, self.name, ', '.join('%s' % q for _, _, q in params))
-        return '%s\nDefinition c_%s %s : %s :=\n%s.\n' % (cm, self.name, sig, rty, text)
+        cm = '%s %s(%s)%s' % (rq, self.name, ', '.join('%s' % q for _, _, q in params),
+                              ' - condition of the first if statement only' if self.guard else '')
+        cm = '(* ' + cm.replace('*)', '* )').replace('(*', '( *') + ' *)'
+        return '%s\nDefinition c_%s%s %s : %s :=\n%s.\n' % (cm, self.name, '_guard' if self.guard else '', sig, rty, text)
 
     # ------------------------------------------------------------------ statements
     def ind(self, depth): return '  ' * depth
@@ -294,6 +314,9 @@ class Func:
             if len(inner) not in (2, 3) or s.get('hasInit') or s.get('hasVar'): self.err(s, 'unsupported if form')
             binds = []
             c = self.cond(inner[0], env, binds, False)
+            if self.guard:
+                if rest or binds: self.err(s, 'guard translation: unexpected statements after the first if')
+                return self.ind(depth) + c
             th = [inner[1]]
             el = [inner[2]] if len(inner) == 3 else []
 
@@ -609,6 +632,10 @@ class Func:
         self.err(n, 'unsupported pointer expression')
 
 
+CPTR_DECL = ('(* a byte pointer: its numeric value and the three read primitives, offsets relative to the pointer *)\n'
+             'Record cptr := { p_addr : Z; p_rd8 : Z -> option Z; p_rd16 : Z -> option Z; p_rd32 : Z -> option Z }.\n')
+
+
 class Translator:
     def __init__(self, family, repo='/repo', consts_v=None):
         self.fam = FAMILIES[family]
@@ -671,10 +698,10 @@ class Translator:
             t = self.ast.resolve_typedefs(f['type'].get('desugaredQualType', f['type']['qualType']))
             if t[0] == 'int':
                 fields[f['name']] = t
-                lines.append('%s%s : Z  (* %s *)' % (prefix, f['name'], f['type']['qualType']))
+                lines.append('%s%s : Z  (* %s *)' % (prefix, f['name'], f['type']['qualType'].replace('*)', '* )')))
             elif t[0] == 'ptr' and t[1][0] == 'void':
                 fields[f['name']] = 'cptr'
-                lines.append('%s%s : cptr  (* %s *)' % (prefix, f['name'], f['type']['qualType']))
+                lines.append('%s%s : cptr  (* %s *)' % (prefix, f['name'], f['type']['qualType'].replace('*)', '* )')))
             else:
                 raise LeafError('struct %s: member %s of unsupported type %s' % (sname, f['name'], f['type']['qualType']))
         if only is not None and set(only) - set(fields): raise LeafError('struct %s: members %s not found' % (sname, sorted(set(only) - set(fields))))
@@ -686,8 +713,7 @@ class Translator:
                '   clang JSON AST -> Gallina; every arithmetic node is wrapped with the wrap of its own C type.',
                '   See the header of the translator for the subset and the conventions. *)',
                'From Flatcc.Common Require Import Wrap.'] + self.fam['imports'] + ['Local Open Scope Z_scope.', 'Local Open Scope bool_scope.', '']
-        out.append('(* a byte pointer: its numeric value and the three read primitives, offsets relative to the pointer *)')
-        out.append('Record cptr := { p_addr : Z; p_rd8 : Z -> option Z; p_rd16 : Z -> option Z; p_rd32 : Z -> option Z }.\n')
+        out.append(CPTR_DECL)
         for sname, (cn, pf) in self.fam.get('structs', {}).items():
             out.append(self.record(sname, cn, pf))
         for sname, (cn, pf, only) in self.fam.get('struct_fields', {}).items():
@@ -699,7 +725,14 @@ class Translator:
             text = f.translate()
             self.done[fn] = {'effect': f.effect, 'params': f.params, 'outs': f.outs, 'rty': f.rty}
             out.append(text)
-        return '\n'.join(out)
+        for fn in self.fam.get('guards', []):
+            d = self.ast.funcs.get(fn)
+            if d is None: raise LeafError('function %s not found in %s' % (fn, self.fam['src']))
+            out.append(Func(self, d, guard=True).translate())
+        text = '\n'.join(out)
+        if not re.search(r'\bcptr\b', text.replace(CPTR_DECL, '')):
+            text = text.replace(CPTR_DECL, '')
+        return text
 
 
 def generate(family, repo='/repo'):
